@@ -729,6 +729,16 @@ fn run_table(ev: &mut Ev, model: &mut TModel, srv: &mut ImplServer, program: &Pr
     if !ans.ends_with("ordered=true") {
         ev.hit("table:not-ordered");
     }
+    // hypothesis of compat_trans_fo / compat_stateless_fo (partial types do not repeat a field name):
+    // only tables of the `open` stream may violate it
+    if ans.contains("distinct=false") {
+        ev.hit(&format!("table:parts-not-distinct:{stream}"));
+        if stream != "open" {
+            ev.hit("generator:repeated-partial-label-outside-open-stream");
+        }
+    } else {
+        ev.hit("table:parts-distinct");
+    }
     let n = tbl.types.len();
     ev.hit(&format!("table-types:{}", if n <= 4 { "1-4" } else if n <= 8 { "5-8" } else if n <= 16 { "9-16" } else if n <= 32 { "17-32" } else { "33+" }));
     ev.hit(&format!("pool-size:{}", pool.len()));
